@@ -3,7 +3,7 @@ package c04
 import (
 	"bytes"
 	"context"
-	"net"
+	"io"
 
 	"mellium.im/xmpp"
 	"mellium.im/xmpp/websocket"
@@ -78,7 +78,7 @@ func listFail(ws bool, pos int, mode string) *handshake {
 			hspeer.Step{Want: nil, Reply: hspeer.Say(cliHeader(ws))},
 			hspeer.Step{Match: func(p []byte) bool { return bytes.Contains(p, []byte("</m>")) }, Reply: hspeer.Say(hspeer.El(nsM, "select"))},
 		)
-		a.call = func(ctx context.Context, conn net.Conn, log *hspeer.Log) (*xmpp.Session, error) {
+		a.call = func(ctx context.Context, conn io.ReadWriter, log *hspeer.Log) (*xmpp.Session, error) {
 			fs := hspeer.InstrumentAll(log, place(pos, featF(req, mode, ""), featM(false, 0), featX())...)
 			return xmpp.ReceiveSession(ctx, conn, 0, negotiatorFor(ws, fs))
 		}
@@ -105,7 +105,7 @@ func parseFail(ws bool, pos int, mode string) *handshake {
 			hspeer.Step{Want: []string{"select"}, Reply: okFor},
 			hspeer.Step{Want: []string{"select"}, Reply: okFor},
 		)
-		a.call = func(ctx context.Context, conn net.Conn, log *hspeer.Log) (*xmpp.Session, error) {
+		a.call = func(ctx context.Context, conn io.ReadWriter, log *hspeer.Log) (*xmpp.Session, error) {
 			fs := hspeer.InstrumentAll(log, featF(req, "", mode), featM(false, 0), featX())
 			return xmpp.NewSession(ctx, serverJID, clientJID, conn, 0, negotiatorFor(ws, fs))
 		}
